@@ -1993,7 +1993,7 @@ start_class (GMarkupParseContext *context,
   iface->abstract = abstract && strcmp (abstract, "1") == 0;
   iface->final_ = final && strcmp (final, "1") == 0;
 
-  if (fundamental)
+  if (fundamental && strcmp (fundamental, "1") == 0)
     iface->fundamental = TRUE;
   if (ref_func)
     iface->ref_func = g_strdup (ref_func);
